@@ -1,8 +1,8 @@
 SPECIFICATION Spec
 CONSTANTS
   MaxLen = 3
-  MaxOps = 3
-  WithDel = FALSE
+  MaxOps = 2
+  WithDel = TRUE
   LowerBoundChecked = TRUE
 INVARIANT TypeOK
 INVARIANT Refines
